@@ -1,9 +1,11 @@
 #!/bin/sh
-# Builds the harness offline from files on disk. Run in /verif.
+# Builds the harness offline from files on disk. Run from anywhere; works in a copy of /verif too.
 set -e
-cd "$(dirname "$0")"
+ROOT=$(cd "$(dirname "$0")" && pwd)
+cd "$ROOT"
 export CARGO_NET_OFFLINE=true
-cd mc && cargo build --release --offline 2>&1 | tail -3
+mkdir -p "$ROOT/target"
+( cd mc && CARGO_TARGET_DIR="$ROOT/target/mc" cargo build --release --offline 2>&1 | tail -3 )
 # Python extension used by C19 / C20 (rebuilt by ./check whenever /repo changes)
-( cd /repo && CARGO_TARGET_DIR=/verif/target/py cargo build -p oxmpl-py --features oxmpl/verif --release --offline 2>&1 | tail -2 )
-mkdir -p /verif/target/py/site && cp /verif/target/py/release/liboxmpl_py.so /verif/target/py/site/oxmpl_py.so
+( cd /repo && CARGO_TARGET_DIR="$ROOT/target/py" cargo build -p oxmpl-py --features oxmpl/verif --release --offline 2>&1 | tail -2 )
+mkdir -p "$ROOT/target/py/site" && cp "$ROOT/target/py/release/liboxmpl_py.so" "$ROOT/target/py/site/oxmpl_py.so"
